@@ -79,6 +79,12 @@ def showPackets (ps : List Packet) : String :=
 
 def nat! (s : String) : Nat := s.toNat?.getD 0
 
+/-- a payload byte overwritten in place (`none`: no payload, or offset behind the payload) -/
+def plWrite (p : Packet) (off v : Nat) : Option Packet :=
+  match p.payload with
+  | some pl => if off < pl.data.length then some { p with payload := some { pl with data := writeAt pl.data off [UInt8.ofNat v] } } else none
+  | none => none
+
 /-- parse a packet view as printed by `showPacket` (of either side) -/
 def parsePacketView (t : String) : Option Packet :=
   match t.splitOn ":" with
@@ -179,6 +185,22 @@ def stepLine (s : DState) (w : List String) : DState × String :=
       | none => (s, "bad-op")
     | none => (s, "bad-op")
   | ["pk", "drop", a] => ({ s with pkts := remove s.pkts a }, "ok")
+  -- one payload byte written in place through the reference `getPayload()` returns (C14 / C19: a copy shares no state)
+  | ["pk", "plwrite", a, off, v] =>
+    match (if has s.pkts a then plWrite (lookup s.pkts a) (nat! off) (nat! v) else none) with
+    | some p => ({ s with pkts := upsert s.pkts a p }, "ok")
+    | none => (s, "bad-op")
+  -- the reference is taken BEFORE the copy / assignment and written through AFTER it: only the source changes
+  | ["pk", "refcopy", d, src, off, v] =>
+    match (if has s.pkts src && d != src then plWrite (lookup s.pkts src) (nat! off) (nat! v) else none) with
+    | some p => ({ s with pkts := upsert (upsert s.pkts d (copyCtor (lookup s.pkts src))) src p }, "ok")
+    | none => (s, "bad-op")
+  | ["pk", "refassign", d, src, off, v] =>
+    match (if has s.pkts src && d != src then plWrite (lookup s.pkts src) (nat! off) (nat! v) else none) with
+    | some p =>
+      let dst := if has s.pkts d then lookup s.pkts d else Packet.dflt
+      ({ s with pkts := upsert (upsert s.pkts d (copyAssign dst (lookup s.pkts src))) src p }, "ok")
+    | none => (s, "bad-op")
   | ["pl", "new", a, ty, hx] =>
     match parseBytes hx with
     | some d =>
@@ -480,6 +502,11 @@ def stepLine (s : DState) (w : List String) : DState × String :=
     match parseBytes hx with
     | none => (s, "bad-op")
     | some b => (s, showPackets (tecmpDecode b))
+  -- a packet constructed from wire bytes (typed payload object inside) and kept in the store
+  | ["pk", "wire", a, mt, hx] =>
+    match parseBytes hx with
+    | none => (s, "bad-op")
+    | some b => if msgValid b then ({ s with pkts := upsert s.pkts a (Packet.ofMsg (nat! mt % 256) b) }, "ok") else (s, "invalid")
   | _ => (s, "bad-op")
 
 partial def loop (h : IO.FS.Stream) (out : IO.FS.Stream) (s : DState) : IO Unit := do
